@@ -195,7 +195,7 @@ def run(chk):
     tier = chk.tier
     rng = chk.rng
     big = tier != 'quick'
-    chk.lean_build(['PeptVerif.Props.C18'], DRV)
+    chk.lean_build(['PeptVerif.Props.C18', 'PeptVerif.Props.C18Concrete'], DRV)
     quirks = E.probe_quirks()
     chk.notes.append(f'composition-path behaviours shown by the implementation (owned by C02/C03): '
                      f'deltaIgnoresMult={quirks[0]} labileDeltaAnyIon={quirks[1]}')
